@@ -200,6 +200,15 @@ pub fn char_strategy() -> impl Strategy<Value = char> {
 }
 /// strings whose lengths cluster around the capacities 7, 31, 127/255
 pub fn string_strategy() -> impl Strategy<Value = String> {
+    prop_oneof![
+        5 => plain_string_strategy(),
+        1 => (any::<u64>(), prop_oneof![Just(7usize), Just(31usize), Just(127usize), Just(255usize), Just(400usize)]).prop_map(|(seed, cap)| {
+            let mut r = crate::rng::Rng::new(seed);
+            crate::msggen::gen_token_text(&mut r, cap)
+        }),
+    ]
+}
+fn plain_string_strategy() -> impl Strategy<Value = String> {
     let around = prop_oneof![0usize..4, 5usize..10, 28usize..35, 60usize..70, 120usize..135, 250usize..262, 0usize..300];
     (around, prop::collection::vec(char_strategy(), 300), any::<u8>()).prop_map(|(len, chars, style)| {
         let mut s: String = String::new();
